@@ -6,6 +6,8 @@ import GLua.Proofs.LoweringValue2
 namespace GLua.Lowering
 open GLua.Compile GLua.MiniVM GLua.CondSpec
 
+variable [NumStruct]
+set_option linter.unusedSectionVars false
 variable {V : Type}
 
 /-! ### code embedded in the final code, possibly without its final `JMP endlabel` -/
